@@ -858,6 +858,8 @@ def l14(rep, w, prop='C17'):
             # an edit that keeps every line where it is: a helper of the command line that hands its argument back after replacing a fixed number
             # of bytes by the same number of bytes, none of them a line break (`#!` -> `//`)
             roots = [q for q in roots if not (q[0][0] == 'call' and q[0][1] not in reads and _keeps_lines(w, f, q[0][1], reads, org))]
+            # ... or a copy of it / a prefix without a line break taken off (a byte order mark) / anything taken off its end
+            roots = [q for q in roots if not (q[0][0] == 'call' and q[0][1] not in reads and _line_preserving_view(w, f, org, q[0][1], lambda q0: q0[0] == 'call' and q0[1] in reads))]
             bad = sorted({q[0][2].rsplit('::', 1)[-1] for q in roots if q[0][0] == 'call' and q[0][1] not in reads} | {x for q in roots for x in q[1:] if x.startswith('#')})
             if not roots and not bad:
                 r.ok('%s / the text interpreted is what read_to_string returned (edited in place, length and lines kept)' % f.path)
@@ -972,3 +974,60 @@ def l16(rep, w, prop='C17'):
         r.check(not bad, '%s / failures of the outside world come back as Err' % nf.path,
                 'the host built-in %s reaches %s on the result of a file / decoding operation: a file that cannot be read or decoded ends the process with a panic instead of raising '
                 'an error the program can catch' % (nf.path, ', '.join(sorted(set(bad)))), nf.loc())
+
+
+_PASS = ('to_owned', 'to_string', 'clone', 'into', 'from', 'deref', 'as_str', 'as_ref', 'borrow', 'unwrap_or', 'unwrap_or_default', 'trim_end', 'trim_end_matches',
+         'strip_suffix', 'as_mut_str', 'into_boxed_str', 'into_string')
+_PREFIX = ('strip_prefix', 'trim_start_matches')
+
+
+def _line_preserving_view(w, f, org, block, is_source, depth=0):
+    """the call at `block` answers with (a copy of) its text argument, possibly with a constant prefix that holds no line break taken off, or with
+    something taken off the end: every line of the argument is still the line with that number. The argument in turn is the source (is_source, a
+    predicate on origin roots) or another such view; a function of the command line crate counts when its own answer is such a view of its first
+    parameter."""
+    if depth > 6:
+        return False
+    t = f.blocks[block]['t']
+    nm = callee_name(t) or ''
+    tail = strip_generics(nm).rsplit('::', 1)[-1]
+    if not t.get('args'):
+        return False
+
+    def arg_ok(a):
+        pl = op_place(a)
+        if pl is None:
+            return False
+        qs = org.get(pl['l'], ())
+        if not qs:
+            return False
+        for q in qs:
+            if is_source(q[0]):
+                continue
+            if q[0][0] == 'call' and _line_preserving_view(w, f, org, q[0][1], is_source, depth + 1):
+                continue
+            return False
+        return True
+    if tail in _PASS:
+        # unwrap_or(x, fallback): both the stripped and the unstripped text
+        return all(arg_ok(a) for a in t['args'] if op_place(a) is not None)
+    if tail in _PREFIX and len(t['args']) == 2:
+        k = op_const(t['args'][1])
+        if k is None:
+            return False
+        pat_ok = ('s' in k and '\\n' not in k['s'] and '\n' not in k['s']) or (isinstance(k.get('v'), int) and k['v'] not in (10, 13))
+        return pat_ok and arg_ok(t['args'][0])
+    g = w.fns.get(nm)
+    if g is not None and g.crate is f.crate and g.argc >= 1 and g.path != f.path:
+        gorg = origins(g)
+        qs = gorg.get(0, ())
+        if not qs:
+            return False
+        for q in qs:
+            if q[0] == ('arg', 1):
+                continue
+            if q[0][0] == 'call' and _line_preserving_view(w, g, gorg, q[0][1], lambda q0: q0 == ('arg', 1), depth + 1):
+                continue
+            return False
+        return arg_ok(t['args'][0])
+    return False
